@@ -42,6 +42,7 @@ func checkDefs() map[string]CheckDef {
 			{Pkg: "internal/verifh/c17", Harness: "VerifC17Independent", Quick: map[string]int{"K": 1, "exact": 1}, Thor: map[string]int{"K": 2}, TV: 10},
 			{Pkg: "internal/verifh/c17", Harness: "VerifC17CloneRoundTrip", Quick: map[string]int{"K": 1, "exact": 1}, Thor: map[string]int{"exact": 0}, TV: 10},
 			{Pkg: "internal/verifh/c17", Harness: "VerifC17Validate", TV: 10},
+			{Pkg: "internal/verifh/c17", Harness: "VerifC17DecodeValidates", TV: 10, Note: "Params.Decode refuses well-formed encodings of invalid parameters (zero duration, address-less participant, one participant, 33-byte nonce) without panicking"},
 			{Pkg: "internal/verifh/c17", Harness: "VerifC17StateID", Quick: map[string]int{"K": 1, "exact": 1}, TV: 5},
 		},
 		Assumptions: append(append([]string{}, commonAssumptions...), cryptoAssumptions...),
@@ -53,6 +54,7 @@ func checkDefs() map[string]CheckDef {
 		Obligations: []Obligation{
 			{Pkg: "internal/verifh/c02", Harness: "VerifC02Update", TV: 20},
 			{Pkg: "internal/verifh/c02", Harness: "VerifC02CheckUpdate", TV: 10},
+			{Pkg: "internal/verifh/c02", Harness: "VerifC02CheckThenUpdate", TV: 10, Note: "CheckUpdate with the peer's valid signature, then Update of the (possibly edited) candidate: no verdict carries over between calls"},
 			{Pkg: "internal/verifh/c02", Harness: "VerifC02Init", TV: 20},
 			{Pkg: "internal/verifh/c02", Harness: "VerifC02Limits", TV: 6},
 		},
@@ -110,6 +112,8 @@ func checkDefs() map[string]CheckDef {
 			{Pkg: "internal/verifh/c13", Harness: "VerifC13Buffer", Quick: map[string]int{"L": 6, "symLenK": 9}, Thor: map[string]int{"L": 10, "symLenK": 11}, TV: 15},
 			{Pkg: "internal/verifh/c13", Harness: "VerifC13Window", Quick: map[string]int{"W": 4, "stride": 4, "symLenK": 9}, Thor: map[string]int{"allTemplates": 1}, TV: 15},
 			{Pkg: "internal/verifh/c13", Harness: "VerifC13PB", Quick: map[string]int{"maxSites": 70}, TV: 60},
+			{Pkg: "internal/verifh/c13", Harness: "VerifC13Zeros", Quick: map[string]int{"maxLen": 14}, Thor: map[string]int{"maxLen": 24}, TV: 15, Note: "every decoder on buffers of length 0..maxLen that are zero except 3 arbitrary bytes at an arbitrary offset"},
+			{Pkg: "internal/verifh/c13", Harness: "VerifC13BigIntLong", TV: 10, Note: "big integer decoder with declared lengths 0,1,127..130,200,255 and the payload present: lengths above the limit are refused whatever the value"},
 			{Pkg: "internal/verifh/c13", Harness: "VerifC13SparseSigs", Quick: map[string]int{"maxSlots": 9}, TV: 15, Note: "sparse signature decoder with the full payload present (0..9 slots, arbitrary mask incl. padding bits)"},
 		},
 		Assumptions: append(append([]string{}, commonAssumptions...), pbAssume,
@@ -123,6 +127,7 @@ func checkDefs() map[string]CheckDef {
 		ID: "C16",
 		Obligations: []Obligation{
 			{Pkg: "internal/verifh/c16", Harness: "VerifC16Primitives", Quick: map[string]int{"payload": 6}, Thor: map[string]int{"payload": 8}, TV: 40},
+			{Pkg: "internal/verifh/c16", Harness: "VerifC16Long", TV: 10, Note: "byte slice / string of 101, 130, 255 bytes and a 40-byte big integer through uniform chunks of 1, 2, 3 bytes (hundreds of reads per field)"},
 			{Pkg: "internal/verifh/c16", Harness: "VerifC16Native", Quick: map[string]int{"envKinds": 2}, Thor: map[string]int{"envKinds": 3}, TV: 20},
 			{Pkg: "internal/verifh/c16", Harness: "VerifC16Protobuf", Quick: map[string]int{"envKinds": 2, "firstFrame": 12}, Thor: map[string]int{"envKinds": 3}, Note: "no translator validation: the modelled proto.Marshal output (8-byte handle) has a different length than the real one, so native and modelled chunk choices are not comparable; counterexamples are still replayed natively"},
 		},
@@ -138,6 +143,7 @@ func checkDefs() map[string]CheckDef {
 			{Pkg: "internal/verifh/c19", Harness: "VerifC19Values", Quick: map[string]int{"K": 1, "exact": 1, "maxA": 1, "maxS": 1}, Thor: map[string]int{"maxA": 2, "maxS": 2}, TV: 40},
 			{Pkg: "internal/verifh/c19", Harness: "VerifC19Params", Quick: map[string]int{"K": 1, "exact": 1}, TV: 20},
 			{Pkg: "internal/verifh/c19", Harness: "VerifC19Machines", Quick: map[string]int{"K": 1, "exact": 1}, TV: 30},
+			{Pkg: "internal/verifh/c19", Harness: "VerifC19History", Quick: map[string]int{"K": 1, "exact": 1}, TV: 10, Note: "machine with a transaction history (one real update cycle): the history of the clone is separate memory too (read through an overlay-only accessor)"},
 		},
 		Assumptions: append(append([]string{}, commonAssumptions...), cryptoAssumptions[0],
 			"sharing is detected by mutating one side through every mutable location reachable from it (in-place big.Int addition of a non-zero delta, slot replacement, index-map entries, ID and signature bytes, app data in place, nonce, address coordinates, address map entries) and comparing the other side with an independent deep snapshot taken before",
@@ -207,8 +213,8 @@ func checkDefs() map[string]CheckDef {
 			"the real watcher goroutines run under the engine's cooperative scheduler; the 1 ms statesFromClientWaitTime timer and all other timers fire on the virtual clock only when no goroutine can run; after every step the harness waits for quiescence",
 			"single-ledger channels; a sub-channel is locked in the parent's newest state only if the watcher knows it (watched, or archived while locked)",
 			"reference: DESIGN.md Appendix A.5 (event version below the own registered version: unconstrained)"),
-		BoundsText: "one ledger channel and one sub-channel; symbolic versions (< 2^60) of initial states, of every published transaction (strictly increasing per channel by a symbolic step) and of every adjudicator event; symbolic locked flag per parent publication; histories of h steps over {publish parent, publish sub, event for parent, event for sub (registered/progressed/concluded), start sub, stop sub, stop parent (refused while the sub-channel is watched)}; h=4 (5 thorough) under the deterministic schedule, h=3 (4 thorough) under all wake-up orders at blocking points with race detection; two-events obligation: both channels watched with newer published transactions, one registered event each with symbolic versions delivered back to back, every schedule of the two handlers at blocking points and at the Register call",
-		Outside:    []string{"multi-ledger forcing rule", "more than one sub-channel", "failing Register calls", "preemptions inside the handlers (P>0)"},
+		BoundsText: "one ledger channel and one sub-channel; symbolic versions (< 2^60) of initial states, of every published transaction (strictly increasing per channel by a symbolic step) and of every adjudicator event; symbolic locked flag per parent publication; the registration triggered by an event may fail (then nothing counts as registered and the next stale event must be refuted again); histories of h steps over {publish parent, publish sub, event for parent, event for sub (registered/progressed/concluded), start sub, stop sub, stop parent (refused while the sub-channel is watched)}; h=4 (5 thorough) under the deterministic schedule, h=3 (4 thorough) under all wake-up orders at blocking points with race detection; two-events obligation: both channels watched with newer published transactions, one registered event each with symbolic versions delivered back to back, every schedule of the two handlers at blocking points and at the Register call",
+		Outside:    []string{"multi-ledger forcing rule", "more than one sub-channel", "preemptions inside the handlers (P>0)"},
 	})
 	clientAssume := append(append([]string{}, commonAssumptions...), cryptoAssumptions[0],
 		"client world: a real client.Client (registry, channel objects, machine mutexes, update interceptors, state watchers) wired to harness stubs for bus (records published envelopes), funder, adjudicator and watcher; handlers are entered through overlay-only export shims (client/zz_verif_export.go) exactly as Client.Handle dispatches them (one goroutine per message)",
